@@ -37,6 +37,23 @@ fn consumers_root() -> PathBuf {
     PathBuf::from(base)
 }
 
+/// compile-only rendering: the modules and an empty `main` (no use of serde / serde_json by the crate itself)
+fn render_plain(cases: &[&CaseCode]) -> (String, Vec<(usize, usize, usize)>) {
+    let mut src = String::from("#![allow(warnings)]\n");
+    let mut ranges = Vec::new();
+    for c in cases {
+        let start = src.lines().count() + 1;
+        src.push_str(&format!("mod case_{} {{\n", c.id));
+        src.push_str(&c.prelude);
+        src.push('\n');
+        src.push_str(&c.tokens);
+        src.push_str("\n}\n");
+        ranges.push((c.id, start, src.lines().count()));
+    }
+    src.push_str("fn main() {}\n");
+    (src, ranges)
+}
+
 fn render_main(cases: &[&CaseCode]) -> (String, Vec<(usize, usize, usize)>) {
     let mut src = String::new();
     src.push_str(
@@ -134,6 +151,15 @@ where
 /// Build a consumer crate containing the given cases; cases that do not compile are removed
 /// (their diagnostics recorded) and the build is repeated until the rest compiles.
 pub fn build_consumer(name: &str, cases: &[CaseCode], with_serde_dep: bool, extra_files: &[(String, String)]) -> BuildOutcome {
+    build_consumer_inner(name, cases, with_serde_dep, extra_files, false)
+}
+
+/// The same, but the crate only has to compile (empty `main`): usable without a serde dependency.
+pub fn build_compile_only(name: &str, cases: &[CaseCode], with_serde_dep: bool, extra_files: &[(String, String)]) -> BuildOutcome {
+    build_consumer_inner(name, cases, with_serde_dep, extra_files, true)
+}
+
+fn build_consumer_inner(name: &str, cases: &[CaseCode], with_serde_dep: bool, extra_files: &[(String, String)], plain: bool) -> BuildOutcome {
     let started = std::time::Instant::now();
     let root = consumers_root();
     let dir = root.join("consumers").join(format!("{}-{}", name, std::process::id()));
@@ -166,7 +192,7 @@ pub fn build_consumer(name: &str, cases: &[CaseCode], with_serde_dep: bool, extr
     let mut live: Vec<&CaseCode> = cases.iter().collect();
     for round in 0..6 {
         out.rounds = round + 1;
-        let (src, ranges) = render_main(&live);
+        let (src, ranges) = if plain { render_plain(&live) } else { render_main(&live) };
         std::fs::write(dir.join("src/main.rs"), &src).unwrap();
         let res = Command::new("cargo")
             .args(["build", "--offline", "--message-format=json", "-q"])
@@ -202,7 +228,16 @@ pub fn build_consumer(name: &str, cases: &[CaseCode], with_serde_dep: bool, extr
             let mut owner = None;
             if let Some(spans) = msg["spans"].as_array() {
                 for sp in spans {
-                    if sp["file_name"].as_str().map(|f| f.ends_with("main.rs")).unwrap_or(false) {
+                    let fname = sp["file_name"].as_str().unwrap_or("");
+                    if let Some(pos) = fname.rfind("case_") {
+                        // a file written for one case (`case_<id>_….rs`)
+                        let digits: String = fname[pos + 5..].chars().take_while(|c| c.is_ascii_digit()).collect();
+                        if let Ok(id) = digits.parse::<usize>() {
+                            owner = Some(id);
+                            break;
+                        }
+                    }
+                    if fname.ends_with("main.rs") {
                         let l = sp["line_start"].as_u64().unwrap_or(0) as usize;
                         if let Some((id, _, _)) = ranges.iter().find(|(_, a, b)| *a <= l && l <= *b) {
                             owner = Some(*id);
